@@ -109,7 +109,7 @@ Theorem C09_size_guard_refuted_pinned : exists free len r k,
   /\ ~ (k <= small_size \/ k * object_ObjectSize < free).
 Proof. exact refuted_pinned_repeat_guard. Qed.
 
-(* non-vacuity: a three-level recursion needs 5 nested Eval activations; limits 3 and 4 *)
+(* non-vacuity: a three-level recursion through an infix operand needs 6 nested Eval activations; limits 4 and 5 *)
 Example C09_ex_depth :
   let t := program 1 (GRec GLeaf [GLeaf]) [GRec GLeaf [GInfix GLeaf GLeaf]] [GRec GLeaf [GInfix GLeaf GLeaf]] 3 in
   need t = 6 /\ guard_fires 4 t = Some true /\ guard_fires 5 t = Some false
